@@ -471,3 +471,88 @@ pub fn programs(max_new: usize, apps: usize, rich: bool) -> Vec<Prog> {
     rec(&mut vec![], &mut vec![], 0, 0, max_new, apps, rich, &mut out);
     out
 }
+
+/// larger expression programs, as parametrised families: chains, folds over several inputs, one variable
+/// used many times, wide operations, unused variables
+pub fn structured_programs(kmax: usize) -> Vec<Prog> {
+    let mut out = vec![];
+    for k in 1..=kmax {
+        // unary chain of length k on one input
+        let mut st = vec![Stmt::NewVar(0)];
+        for i in 0..k {
+            st.push(Stmt::Un((i % 2) as u8, i));
+        }
+        out.push(Prog { stmts: st.clone(), sources: vec![0], targets: vec![k], leak: false });
+        out.push(Prog { stmts: st, sources: vec![0], targets: vec![k, 0, k], leak: false });
+        // fold over k+1 inputs with alternating operators, inputs declared up front / just in time
+        for jit in [false, true] {
+            let mut st = vec![];
+            let n_in = k + 1;
+            if !jit {
+                for i in 0..n_in {
+                    st.push(Stmt::NewVar((i % 2) as u8));
+                }
+                let mut acc = 0usize;
+                for i in 1..n_in {
+                    st.push(Stmt::Bin(if i % 2 == 0 { 5 } else { 7 }, acc, i));
+                    acc = n_in + i - 1;
+                }
+                out.push(Prog { stmts: st, sources: (0..n_in).collect(), targets: vec![acc], leak: false });
+            } else {
+                // x0; then for each further input: declare it, combine
+                st.push(Stmt::NewVar(0));
+                let mut acc = 0usize;
+                let mut next = 1usize;
+                let mut ins = vec![0usize];
+                for i in 1..n_in {
+                    st.push(Stmt::NewVar((i % 2) as u8));
+                    let v = next;
+                    next += 1;
+                    ins.push(v);
+                    st.push(Stmt::Bin(if i % 2 == 0 { 6 } else { 8 }, v, acc));
+                    acc = next;
+                    next += 1;
+                }
+                out.push(Prog { stmts: st, sources: ins, targets: vec![acc], leak: false });
+            }
+        }
+        // one variable used k+1 times
+        let mut st = vec![Stmt::NewVar(1), Stmt::Bin(5, 0, 0)];
+        for i in 1..k {
+            st.push(Stmt::Bin(7, i, 0));
+        }
+        out.push(Prog { stmts: st, sources: vec![0], targets: vec![k], leak: false });
+        // a wide operation: k arguments (with repeats), k results, all of them outputs in reverse
+        if k <= 4 {
+            let mut st: Vec<Stmt> = (0..k).map(|i| Stmt::NewVar((i % 2) as u8)).collect();
+            st.push(Stmt::Op((0..k).chain(0..1).collect(), (0..k).map(|i| (i % 2) as u8).collect(), 0));
+            out.push(Prog { stmts: st, sources: (0..k).collect(), targets: (k..2 * k).rev().collect(), leak: false });
+        }
+        // k declared variables, only the last one used
+        let mut st: Vec<Stmt> = (0..k).map(|i| Stmt::NewVar((i % 2) as u8)).collect();
+        st.push(Stmt::Un(1, k - 1));
+        out.push(Prog { stmts: st, sources: vec![k - 1], targets: vec![k], leak: false });
+    }
+    out
+}
+
+/// lax terms with one variable hyperedge of arity a x b (a, b <= 3) under every labelling of its incident
+/// nodes, next to an ordinary operation
+pub fn structured_forget_terms() -> Vec<PLax<u8, u8>> {
+    let mut out = vec![];
+    for a in 0..=3usize {
+        for b in 0..=3usize {
+            let n = a + b + 1;
+            for code in 0..(1u32 << n) {
+                let nodes: Vec<u8> = (0..n).map(|i| ((code >> i) & 1) as u8).collect();
+                let var = PEdge { label: 0u8, src: (0..a).collect(), tgt: (a..a + b).collect() };
+                let op = PEdge { label: 1u8, src: if a + b > 0 { vec![a + b - 1] } else { vec![] }, tgt: vec![n - 1] };
+                for order in [false, true] {
+                    let edges = if order { vec![op.clone(), var.clone()] } else { vec![var.clone(), op.clone()] };
+                    out.push(PLax { open: POpen { nodes: nodes.clone(), edges, s: (0..a.min(2)).collect(), t: vec![n - 1] }, quot: vec![] });
+                }
+            }
+        }
+    }
+    out
+}
